@@ -95,6 +95,9 @@ def main():
                  'offending sequence is left unconsumed) is ASSUMED by the loop theorems, and the end-to-end theorems use a reference iconv '
                  '(Spec/CharsetIconv.lean: unit by unit, room checked first); both observed, not proved, on every call of the run',
                  'CPython codecs.lookup: modelled (C normalisation, encodings.search_function) and tied on the table and by the registry stream',
+                 'tools/translate/iconv2lean.py + tools/translate/pytr (the translated subset of lib/iconv.py) and the kit Model/CharsetPy.lean: what each '
+                 'ctypes operation is taken to be (c_size_t cells below 2^64, sizeof(wchar_t) = 4, pointers as the buffer they were made from, the reset '
+                 'call selecting the round by the out-count of its iteration, errno as ghost state, a charset name is ASCII, no lone surrogates)',
                  'the correspondence harness (tools/checks/charset_common.py, Driver/Charset.lean)'],
         explanation=EXPLANATION)
 
@@ -116,6 +119,13 @@ EXPLANATION = (
     'euctw_roundtrip_refuted, euctw_decode_error_position. iconv binding, every iconv behaviour: iconv_told_le_allocated, '
     'iconv_loop_schedule; under the assumed POSIX contract: iconv_loop_terminates, iconv_loop_rounds_log, iconv_loop_buffer_bound, '
     'iconv_loop_returns_produced, iconv_loop_error_span (+ the encode versions); non_doubling_loop_diverges; iconv_wchar_out_of_range. '
+    'TIE BY TRANSLATION (Props/C20Tie.lean): lib/iconv.py _decode_dl / _encode_dl / decode / encode are regenerated from the current source on every '
+    'run (tools/translate/iconv2lean.py -> Generated/IconvDl.lean over the kit Model/CharsetPy.lean) and proved equal to decodeLoop / encodeLoop / decodeDl / '
+    'encodeDl for all inputs, all iconv behaviours incl. failing iconv_open / iconv_close, all fuel, every world: generated_decode_loop_eq_model, '
+    'generated_encode_loop_eq_model, generated_decode_dl_eq_model, generated_encode_dl_eq_model, generated_decode_eq_model, generated_encode_eq_model, '
+    'generated_errors_not_strict; restated about the regenerated binding: iconv_told_le_allocated_generated (+_any), iconv_loop_schedule_generated, '
+    'iconv_loop_terminates_generated, iconv_encode_loop_terminates_generated, iconv_loop_returns_produced_generated, '
+    'iconv_encode_loop_returns_produced_generated, iconv_loop_error_span_generated (coverage.tie; twin streams charset-loop-*-generated). '
     'End to end (the loop composed with a reference iconv for the charset): euctw_codec_decode, euctw_codec_encode, euctw_codec_roundtrip, '
     'koi8t_codec. loader_decode_total. unrepresentable_iff, check_unrepresentable_iff, check_classification, check_total, '
     'extra_codecs_encode_ok (EncodeOk is a theorem for the charmap codecs and EUC-TW). '
